@@ -5,6 +5,7 @@ from typing import Tuple
 from typing import Union
 from typing import no_type_check
 
+import torch
 from torch import Tensor
 from torch.nn import Module
 
@@ -13,6 +14,17 @@ from pfhedge.instruments import AmericanBinaryOption
 from pfhedge.instruments import EuropeanBinaryOption
 from pfhedge.instruments import EuropeanOption
 from pfhedge.instruments import LookbackOption
+
+
+def _broadcast_tensors(kwargs: dict) -> dict:
+    # Greeks computed by autograd are gradients with respect to the tensor passed in:
+    # expand all tensors to their common shape so that they are element-wise
+    # (a smaller tensor would otherwise collect the sum over the broadcast dimensions).
+    names = [name for name, value in kwargs.items() if isinstance(value, Tensor)]
+    if len(names) > 1:
+        tensors = torch.broadcast_tensors(*(kwargs[name] for name in names))
+        kwargs.update(zip(names, tensors))
+    return kwargs
 
 
 class BSModuleMixin(Module):
@@ -55,7 +67,7 @@ class BSModuleMixin(Module):
         Returns:
             torch.Tensor
         """
-        return autogreek.delta(self.price, **kwargs)
+        return autogreek.delta(self.price, **_broadcast_tensors(kwargs))
 
     @no_type_check
     def gamma(self, **kwargs) -> Tensor:
@@ -64,7 +76,7 @@ class BSModuleMixin(Module):
         Returns:
             torch.Tensor
         """
-        return autogreek.gamma(self.price, **kwargs)
+        return autogreek.gamma(self.price, **_broadcast_tensors(kwargs))
 
     @no_type_check
     def vega(self, **kwargs) -> Tensor:
@@ -73,7 +85,7 @@ class BSModuleMixin(Module):
         Returns:
             torch.Tensor
         """
-        return autogreek.vega(self.price, **kwargs)
+        return autogreek.vega(self.price, **_broadcast_tensors(kwargs))
 
     @no_type_check
     def theta(self, **kwargs) -> Tensor:
@@ -82,7 +94,7 @@ class BSModuleMixin(Module):
         Returns:
             torch.Tensor
         """
-        return autogreek.theta(self.price, **kwargs)
+        return autogreek.theta(self.price, **_broadcast_tensors(kwargs))
 
     def inputs(self) -> List[str]:
         """Returns the names of input features.
